@@ -93,7 +93,7 @@ def draw_cell(rng, field, fmt, bad_rate=0.15):
         return rng.choice(pool)
     if field.get("empty") and roll < bad_rate + 0.1:
         return ""
-    if field["type"] == "Text" and "good" not in field and rng.random() < 0.08:
+    if field["type"] == "Text" and "good" not in field and rng.random() < 0.15:
         # characters that are data like any other although some tools give them a meaning of their own
         return rng.choice(EXOTIC_TEXT)
     return rng.choice(good)
